@@ -213,7 +213,7 @@ func TestVfC12Edns(t *testing.T) {
 		}
 		sc := &c12Script{}
 		if outcome == "rcode" {
-			sc.rcode = uint16(rapid.SampledFrom([]int{3, 2, 5}).Draw(t, "upRcode"))
+			sc.rcode = uint16(rapid.SampledFrom([]int{3, 2, 5, 1, 1, 4, 9}).Draw(t, "upRcode")) // incl. FORMERR / NOTIMP, with or without an OPT: what a server without EDNS says
 		}
 		upOpts := false
 		if rapid.Bool().Draw(t, "upOPT") {
